@@ -31,6 +31,33 @@ TRUSTED = [
 ]
 
 
+def _run_guarded(mod, ctx, case):
+    """Safety net: an exception that escapes from the code under test (a frame under <REPO>/vopy) through a
+    harness module that forgot to guard the call is a crash of VOPy on a generated, supported input — an (R)
+    violation with the case as replay — not an infrastructure failure.  Exceptions raised by the harness itself
+    (no VOPy frame at the point of failure) still abort the run (exit 2)."""
+    try:
+        mod.run_case(ctx, case)
+    except Exception as e:
+        tb = traceback.extract_tb(e.__traceback__)
+        innermost_vopy = bool(tb) and (os.sep + "vopy" + os.sep) in tb[-1].filename and tb[-1].filename.startswith(REPO)
+        third_party_below_vopy = False
+        for fr in reversed(tb):
+            if fr.filename.startswith(str(core.VERIF)):
+                break
+            if (os.sep + "vopy" + os.sep) in fr.filename and fr.filename.startswith(REPO):
+                third_party_below_vopy = True
+                break
+        if innermost_vopy or third_party_below_vopy:
+            ctx.violation("uncaught-crash:" + core.exc_key(e),
+                          f"VOPy raised {type(e).__name__}: {str(e)[:200]} on a generated input "
+                          "(exception escaped through the harness)", case, kind="R",
+                          detail={"traceback": traceback.format_exc()[-3000:]})
+            ctx.case_done(case, True)
+        else:
+            raise
+
+
 def worker(args) -> dict:
     mod = importlib.import_module(f"harness.props.{args.id.lower()}")
     ctx = core.Ctx(args.id, args.tier, args.seed, args.worker, args.nworkers)
@@ -40,16 +67,16 @@ def worker(args) -> dict:
         if args.replay:
             rec = json.loads(Path(args.replay).read_text())
             case = rec.get("case", rec)
-            mod.run_case(ctx, case)
+            _run_guarded(mod, ctx, case)
         else:
             cdir = core.VERIF / "corpus" / args.id
             if args.worker == 0 and cdir.is_dir():
                 for f in sorted(cdir.glob("*.json")):
                     rec = json.loads(f.read_text())
                     ctx.count("corpus_cases")
-                    mod.run_case(ctx, rec.get("case", rec))
+                    _run_guarded(mod, ctx, rec.get("case", rec))
             for case in mod.gen(ctx):
-                mod.run_case(ctx, case)
+                _run_guarded(mod, ctx, case)
                 if not ctx.time_left():
                     ctx.info("time budget reached; generation stopped early")
                     break
